@@ -21,9 +21,9 @@
 #define QMAX (NLINES + 2)
 typedef struct S_struct_2eFIX8_3a_3aLogger_3a_3aLogElement LE;
 static struct S_struct_2eVLogger the_lg;
-/* abstract FIFO: conveys (value, level, text empty or not) of every element in order; the element handed to the consumer is
+/* abstract FIFO: conveys (value, level, text empty or not, exit flag) of every element in order; the element handed to the consumer is
    rebuilt by the real LogElement constructor in one static slot (the loop holds one popped element at a time) */
-static uint32_t q_val[QMAX], q_lvl[QMAX]; static uint8_t q_emp[QMAX]; static LE pop_slot; static uint32_t q_head, q_tail, q_released;
+static uint32_t q_val[QMAX], q_lvl[QMAX]; static uint8_t q_emp[QMAX], q_exit[QMAX]; static LE pop_slot; static uint32_t q_head, q_tail, q_released;
 /* bookkeeping */
 static uint32_t n_sub;                    /* lines submitted so far (ids 1..NLINES in submission order) */
 static uint8_t sub_enabled[NLINES + 1], sub_ret[NLINES + 1], sub_queued[NLINES + 1], sub_before_stop[NLINES + 1];
@@ -36,7 +36,7 @@ uint8_t cx_act[2 * NLINES + 8]; uint32_t cx_nact; uint8_t cx_en[NLINES + 1]; uin
 uint8_t st_q_try_push(void *q, LE *src)
 {
   __CPROVER_assert(q_tail < QMAX, "abstract FIFO large enough");
-  q_val[q_tail] = vf_le_val(src); q_lvl[q_tail] = vf_le_level(src); q_emp[q_tail] = vf_le_empty(src) & 1; q_tail++;
+  q_val[q_tail] = vf_le_val(src); q_lvl[q_tail] = vf_le_level(src); q_emp[q_tail] = vf_le_empty(src) & 1; q_exit[q_tail] = vf_le_exit(src) & 1; q_tail++;
   if (cur_sub) sub_queued[cur_sub] = 1;
   return 1;                               /* uMPMC_Ptr_Queue::push always returns true (C30) */
 }
@@ -45,7 +45,7 @@ uint8_t st_q_try_pop(void *q, LE **out)
 {
   if (running) sched(0);                /* producers may act between the flag read and the pop */
   if (q_head == q_tail) return 0;
-  vf_le_make(&pop_slot, q_val[q_head], q_lvl[q_head], q_emp[q_head]); q_head++;
+  vf_le_make(&pop_slot, q_val[q_head], q_lvl[q_head], q_emp[q_head], q_exit[q_head]); q_head++;
   *out = &pop_slot; return 1;
 }
 void st_q_release(void *q, LE *e) { q_released++; }
@@ -56,22 +56,23 @@ uint64_t st_getid(void) { return 7; }
 void x_vf_processed(uint32_t val, uint32_t level, uint32_t empty)
 {
   __CPROVER_assert(n_proc < QMAX, "record large enough");
-  if (empty) proc_empty_seen = 1;
+  if (val == 0) proc_empty_seen = 1;       /* the stop marker is the only element without a line id (an empty line of a producer is an ordinary line) */
   proc_id[n_proc] = val; if (n_proc <= QMAX) cx_proc[n_proc] = val; n_proc++;
   if (running) sched(0);                  /* producers may act while the line is written (between P and the next R) */
 }
 /* one producer step: submit the next line, or (part of) stop */
 static void step_submit(void)
 {
-  /* the text of the line is the solver's choice: 1..2 characters over { 'a', CR, LF } (texts made of line endings included) */
+  /* the text of the line is the solver's choice: 0..2 characters over { 'a', CR, LF } (texts made of line endings included) */
   static const uint8_t alpha[3] = { 'a', '\r', '\n' };
-  uint8_t txt[2]; uint8_t c0 = nondet_u8(), c1 = nondet_u8(), tl = nondet_u8(); VF_ASSUME(c0 < 3 && c1 < 3 && tl >= 1 && tl <= 2);
+  uint8_t txt[2]; uint8_t c0 = nondet_u8(), c1 = nondet_u8(), tl = nondet_u8(); VF_ASSUME(c0 < 3 && c1 < 3 && tl <= 2);
   txt[0] = alpha[c0]; txt[1] = alpha[c1];
   uint32_t id = ++n_sub; uint8_t en = nondet_bool();
   sub_enabled[id] = en; cx_en[id] = en; sub_before_stop[id] = (stop_phase == 0);
   cx_t0[id] = txt[0]; cx_t1[id] = txt[1]; cx_tlen[id] = tl;
   cur_sub = id;
-  if (tl == 1) sub_ret[id] = vf_lg_send(&the_lg, txt, 1, en ? 1 : 0 /* Info enabled, Debug disabled */, id) & 1;      /* constant lengths (case split) */
+  if (tl == 0) sub_ret[id] = vf_lg_send(&the_lg, txt, 0, en ? 1 : 0, id) & 1;      /* the empty line */
+  else if (tl == 1) sub_ret[id] = vf_lg_send(&the_lg, txt, 1, en ? 1 : 0 /* Info enabled, Debug disabled */, id) & 1;      /* constant lengths (case split) */
   else sub_ret[id] = vf_lg_send(&the_lg, txt, 2, en ? 1 : 0, id) & 1;
   cur_sub = 0;
 }
